@@ -240,6 +240,13 @@ func nlist(xs []int) string {
 	}
 	return "[" + strings.Join(s, ";") + "]%N"
 }
+func nlistList(xs [][]int) string {
+	s := make([]string, len(xs))
+	for i, x := range xs {
+		s[i] = nlist(x)
+	}
+	return "[" + strings.Join(s, "; ") + "]"
+}
 func fobsLit(f FObs) string {
 	return fmt.Sprintf("{| fo_kind := %s; fo_mode := %s; fo_data := %s |}", hc.N(f.Kind), hc.N(int(f.Mode)), nlist(f.Data))
 }
@@ -264,14 +271,14 @@ type step struct {
 	obs   *SObs
 }
 
-func caseLit(id int, c Cfg, dm int, writers int, counts []int, model bool, steps []step) string {
+func caseLit(id int, c Cfg, dm int, writers int, wacked [][]int, model bool, steps []step) string {
 	var sb strings.Builder
 	dmLit := "None"
 	if dm != 0 {
 		dmLit = "Some " + hc.N(dm)
 	}
 	fmt.Fprintf(&sb, "{| c_id := %s; c_cfg := %s; c_fids := %s; c_dm := %s; c_k0 := 0%%Z; c_writers := %s; c_counts := %s; c_model := %s; c_steps := [",
-		hc.N(id), cfgLit(c), nlist(c.Foreign), dmLit, hc.N(writers), nlist(counts), hc.B(model))
+		hc.N(id), cfgLit(c), nlist(c.Foreign), dmLit, hc.N(writers), nlistList(wacked), hc.B(model))
 	for i, s := range steps {
 		if i > 0 {
 			sb.WriteString(";\n  ")
@@ -743,12 +750,21 @@ func execConc(c Case, root string) (res result) {
 		}
 	}
 	acked := make([][]int, len(c.Writers))
+	var panicMu sync.Mutex
+	panicked := ""
 	var wg sync.WaitGroup
 	start := make(chan struct{})
 	for w := range c.Writers {
 		wg.Add(1)
 		go func(w int) {
 			defer wg.Done()
+			defer func() {
+				if r := recover(); r != nil {
+					panicMu.Lock()
+					panicked = fmt.Sprint(r)
+					panicMu.Unlock()
+				}
+			}()
 			<-start
 			for _, e := range evs[w] {
 				if _, err := fs.Process(context.Background(), &el.Event{Formatted: map[string][]byte{el.JSONFormat: e.data}}); err == nil {
@@ -759,12 +775,13 @@ func execConc(c Case, root string) (res result) {
 	}
 	close(start)
 	wg.Wait()
+	if panicked != "" {
+		panic("a writer goroutine panicked: " + panicked)
+	}
 	o := &SObs{Ok: true, Lc: -1, Bw: fs.BytesWritten}
 	o.Files, o.Foreign, o.Dir = listDir(dir, ns, tk.tokens, nil, nil)
-	counts := make([]int, len(c.Writers))
 	total := 0
 	for w := range acked {
-		counts[w] = len(acked[w])
 		total += len(acked[w])
 	}
 	var steps []step
@@ -819,7 +836,7 @@ func execConc(c Case, root string) (res result) {
 	res.stats["conc_files"] = len(o.Files)
 	res.nontriv = len(o.Files) > 1 && len(c.Writers) > 1
 	res.sig = fmt.Sprintf("conc %+v %v %d", c.Cfg, c.Writers, c.Seed)
-	res.lit = caseLit(c.ID, c.Cfg, 0, len(c.Writers), counts, model, steps)
+	res.lit = caseLit(c.ID, c.Cfg, 0, len(c.Writers), acked, model, steps)
 	return res
 }
 
@@ -917,7 +934,12 @@ func execKill(c Case, root string) (res kresult) {
 	for i, f := range files {
 		fl[i] = fobsLit(f)
 	}
-	res.lit = fmt.Sprintf("{| k_id := %s; k_cfg := %s; k_acks := %s; k_files := %s |}", hc.N(c.ID), cfgLit(c.Cfg), hc.N(acks), hc.List(fl))
+	sizes := make([]string, acks+1)
+	for i := range sizes {
+		sizes[i] = strconv.Itoa(len(linePayload(i + 1)))
+	}
+	szLit := "[" + strings.Join(sizes, ";") + "]%Z"
+	res.lit = fmt.Sprintf("{| k_id := %s; k_cfg := %s; k_acks := %s; k_sizes := %s; k_files := %s |}", hc.N(c.ID), cfgLit(c.Cfg), hc.N(acks), szLit, hc.List(fl))
 	return res
 }
 
@@ -1029,7 +1051,7 @@ func main() {
 	cf := &hc.CaseFile{Dir: *out, Prefix: *prefix, PerShard: *perShard, Type: "list fcase", Header: header,
 		Footer: "Definition M := Eval vm_compute in mismatches cases.\nPrint M.\nDefinition C := Eval vm_compute in coverage cases.\nPrint C."}
 	kf := &hc.CaseFile{Dir: *out, Prefix: *prefix + "_kill", PerShard: 10, Type: "list kcase", Header: header,
-		Footer: "Definition M := Eval vm_compute in kill_mismatches cases.\nPrint M."}
+		Footer: "Definition M := Eval vm_compute in kill_mismatches cases.\nPrint M.\nDefinition W := Eval vm_compute in kill_positions cases.\nPrint W."}
 	sideF, err := os.Create(*out + "/" + *prefix + ".jsonl")
 	if err != nil {
 		panic(err)
@@ -1079,6 +1101,12 @@ func main() {
 					c.MaxBytes = 20 + g.Intn(80)
 				}
 				nw := 1 + g.Intn(8)
+				if g.Chance(3, 4) && nw < 3 {
+					nw = 3 + g.Intn(6) // mostly real contention
+				}
+				if g.Chance(1, 3) {
+					c.MaxBytes = 1 + g.Intn(30) // a rotation every one or two events
+				}
 				ws := make([]int, nw)
 				for w := range ws {
 					ws[w] = 1 + g.Intn(120/nw)
